@@ -115,6 +115,17 @@ def oracle(impl, o):
         accs = spec.accessors()
         ups = [outcome(lambda r=r: spec.flatten_up_to(r)) for r in rests]
         all_prefix = all(x[0] == 'ok' for x in ups)
+        # independent judge of "rest has t's structure as a prefix" (flatten_up_to ignores is_leaf on the rest)
+        from props.C09 import ref_is_prefix
+        try:
+            ref_all = all(ref_is_prefix(tree, r, kw['is_leaf'], kw['none_is_leaf'], kw['namespace'],
+                                        bool(optree._C.is_dict_insertion_ordered(kw['namespace'])))
+                          for r in rests) if kw['is_leaf'] is None else all_prefix
+        except Exception:
+            ref_all = all_prefix
+        if ref_all != all_prefix:
+            fails.append({'key': 'prefix-judgement', 'what': f'flatten_up_to {"accepts" if all_prefix else "rejects"} the rests but by the documented rules they {"are" if ref_all else "are not"} suffixes of the tree'})
+            all_prefix = ref_all
         variants = [('tree_map', None), ('tree_map_', None), ('tree_map_with_path', paths),
                     ('tree_map_with_path_', paths), ('tree_map_with_accessor', accs),
                     ('tree_map_with_accessor_', accs)]
